@@ -89,8 +89,9 @@ def mkXform (src dst : String) (g : Json) : Nat → St → Except Err (Nat × St
   let err := (jArr g "err").filterMap jPairNatStr
   let write := (g.getObjValAs? String "write").toOption
   let wrapped := jBool g "wrapped"
+  let nolog := jBool g "nolog"
   fun x (d, log) =>
-    let log' := log ++ [Json.arr #[Json.str "t", Json.str src, Json.str dst, Json.num x, stJson d]]
+    let log' := if nolog then log else log ++ [Json.arr #[Json.str "t", Json.str src, Json.str dst, Json.num x, stJson d]]
     match err.find? (·.1 == x) with
     | some (_, cls) => .error (mkErr wrapped cls)
     | none =>
